@@ -5,7 +5,7 @@
    query on BOTH OPERANDS afterwards, and the harness's deep comparison of the operands'
    state before/after.  For the recorded defect D15 the
    code carries 10 * (index of the guard that is false). *)
-From FCA Require Export Corr.C09 Model.PosetAlgebra.
+From FCA Require Export Corr.C09 Model.PosetLattice Model.PosetAlgebra.
 
 Record c10_case := {
   a_matrix : list (list bool);
@@ -15,6 +15,9 @@ Record c10_case := {
   a_cache_b : bool;
   a_warm_a : list (op nat);        (* histories with queries AND mutations *)
   a_warm_b : list (op nat);
+  a_cls_a : option sl_kind;        (* None: a plain POSet; Some k: an UpperSemiLattice / LowerSemiLattice / Lattice operand *)
+  a_cls_b : option sl_kind;
+  a_same_leq : bool;               (* the two comparison functions are == (identical or equal objects) *)
   a_op : setop;
   a_res : out nat;                 (* implementation: elements of a ⊙ b, or the exception *)
   a_unchanged : bool;              (* implementation: operands deep-equal before and after all operations *)
@@ -25,10 +28,22 @@ Record c10_case := {
   a_after_b : list (out nat)
 }.
 
+(* an operand of a semilattice class starts from the state its constructor leaves (tops /
+   bottoms have been evaluated); the set operations are POSet's and ignore the class.  The
+   harness gives such operands warm-ups of POSet-level queries only. *)
+Definition c10_start (leq : nat -> nat -> bool) (cls : option sl_kind) (l : list nat) (uc : bool) : state nat :=
+  match cls with
+  | None => init nat l uc
+  | Some k => match sl_make nat leq k l uc None with
+              | Some sl => ps sl
+              | None => init nat l uc
+              end
+  end.
+
 Definition c10_operands (c : c10_case) : state nat * state nat :=
   let leq := mleq (a_matrix c) in
-  (fst (run nat leq Nat.eqb (init nat (a_els_a c) (a_cache_a c)) (a_warm_a c)),
-   fst (run nat leq Nat.eqb (init nat (a_els_b c) (a_cache_b c)) (a_warm_b c))).
+  (fst (run nat leq Nat.eqb (c10_start leq (a_cls_a c) (a_els_a c) (a_cache_a c)) (a_warm_a c)),
+   fst (run nat leq Nat.eqb (c10_start leq (a_cls_b c) (a_els_b c) (a_cache_b c)) (a_warm_b c))).
 
 Definition all_answers (leq : nat -> nat -> bool) (s : state nat) : list (out nat) :=
   let '(s', fin) := run nat leq Nat.eqb s (final_queries (length (els s))) in fin ++ [OEls (els s')].
@@ -43,10 +58,14 @@ Definition c10_out := (out nat * bool * list (out nat) * list (out nat) * list (
 Definition c10_model (c : c10_case) : c10_out :=
   let leq := mleq (a_matrix c) in
   let '(sa, sb) := c10_operands c in
-  let r := combine nat Nat.eqb (a_op c) sa sb in
-  let fr := all_answers leq r in
-  (OEls (els r), true, fr, fr, all_answers leq (combine nat Nat.eqb (a_op c) sb sa),
-   all_answers leq sa, all_answers leq sb).
+  if a_same_leq c then
+    let r := combine nat Nat.eqb (a_op c) sa sb in
+    let fr := all_answers leq r in
+    (OEls (els r), true, fr, fr, all_answers leq (combine nat Nat.eqb (a_op c) sb sa),
+     all_answers leq sa, all_answers leq sb)
+  else (* the assert on the comparison functions: AssertionError, nothing touched *)
+    (OErr EAssert, true, [OErr EAssert], [OErr EAssert], [OErr EAssert],
+     all_answers leq sa, all_answers leq sb).
 
 Definition c10_spec (c : c10_case) : c10_out :=
   let leq := mleq (a_matrix c) in
@@ -54,9 +73,13 @@ Definition c10_spec (c : c10_case) : c10_out :=
   let eb := fst (spec_run nat leq Nat.eqb (a_els_b c) (a_cache_b c) (a_warm_b c)) in
   let comb := els_comb nat Nat.eqb (a_op c) ea eb in
   let fr := spec_answers leq comb (a_cache_a c) in
-  (OEls comb, true, fr, fr,
-   spec_answers leq (els_comb nat Nat.eqb (a_op c) eb ea) (a_cache_b c),
-   spec_answers leq ea (a_cache_a c), spec_answers leq eb (a_cache_b c)).
+  if a_same_leq c then
+    (OEls comb, true, fr, fr,
+     spec_answers leq (els_comb nat Nat.eqb (a_op c) eb ea) (a_cache_b c),
+     spec_answers leq ea (a_cache_a c), spec_answers leq eb (a_cache_b c))
+  else (* posets over different comparisons are outside the algebra: the call must be refused *)
+    (OErr EAssert, true, [OErr EAssert], [OErr EAssert], [OErr EAssert],
+     spec_answers leq ea (a_cache_a c), spec_answers leq eb (a_cache_b c)).
 
 Definition c10_same (c : c10_case) (r : c10_out) : bool :=
   let '(a, u, f, f2, fr, aa, ab) := r in
